@@ -278,6 +278,9 @@ def res_variant(v):
 VARIANT_IDX = {'None': 0, 'Some': 1, 'Ok': 0, 'Err': 1, 'Continue': 0, 'Break': 1}
 
 
+SHADOW_OK = ('core::clone::Clone::clone', 'core::default::Default::default', 'core::convert::From::from')
+
+
 def callee_key(c):
     if c.get('trait_dpath'):
         return c['trait_dpath'] + '::' + c['name']
@@ -692,10 +695,16 @@ class Interp:
         key = callee_key(callee)
         import models
         m = models.MODELS.get(key)
+        rid = res.get('id')
+        if m is not None and callee.get('trait_dpath') and key not in SHADOW_OK and rid in self.suite.bodies \
+                and self.suite.bodies[rid]['crate'] == 'opaque_ke' and depth < self.depth_cap:
+            # a model describes the *contract* of a std/dependency trait method; an impl of that trait written in the analysed crate is
+            # code under analysis and is interpreted as a body (Clone/Default/From impls of the crate are covered by L-CLONE, L-PARAMS and
+            # the From model, which runs the crate's impl)
+            m = None
         if m is not None:
             yield from m(self, st, callee, argv, depth, t, dty)
             return
-        rid = res.get('id')
         rtrait = res.get('trait_dpath') or callee.get('trait_dpath')
         # i2osp recognised by shape
         if rid in self.suite.i2osp_ids():
